@@ -271,6 +271,9 @@ func reuseCheckShape(reuse DenseTensor, s Shape) (err error) {
 
 	if axes := reuse.transposeAxes(); axes != nil {
 		ReturnInts(axes)
+		if d, ok := reuse.(*Dense); ok {
+			d.transposeWith = nil // the slice is in the pool now: do not keep (and later return) it
+		}
 	}
 
 	if viewOf := reuse.parentTensor(); viewOf != nil {
